@@ -218,6 +218,8 @@ fn utils_test(rng: &mut StdRng) {
     chk!("utils", format!("{}", v8), "msb::<u8>".to_string(), msb(v8), if v8 == 0 { 0 } else { 7 - v8.leading_zeros() });
     let d: Vec<u64> = (0..rng.gen_range(0..10)).map(|_| rng.gen()).collect();
     chk!("utils", format!("{:?}", d), "popcnt_wide::<4>".to_string(), popcnt_wide::<4>(&d), d.iter().take(4).map(|x| x.count_ones() as usize).sum::<usize>());
+    let pc = |k: usize| d.iter().take(k).map(|x| x.count_ones() as usize).sum::<usize>();
+    chk!("utils", format!("{:?}", d), "popcnt_wide::<0> / <1> / <2> / <8> / <16>".to_string(), (popcnt_wide::<0>(&d), popcnt_wide::<1>(&d), popcnt_wide::<2>(&d), popcnt_wide::<8>(&d), popcnt_wide::<16>(&d)), (0, pc(1), pc(2), pc(8), pc(16)));
 }
 
 fn qvector_test(rng: &mut StdRng) {
